@@ -696,6 +696,160 @@ func (r *Runner) execMacro(a Action) {
 		r.lastFaultMs = w.Now()
 		w.Mu.Unlock()
 		w.Advance(50*time.Millisecond, r.sample)
+	case "figure8":
+		// Raft paper, Figure 8. Leader A appends entries of its term alone; another
+		// server W is elected and appends entries nobody else stores; W is cut off,
+		// A is elected again and its first batch - entries of its OLD term only -
+		// reaches a majority while the no-op of its new term does not. Nothing may
+		// be reported committed at that point: W (newer last term) can still win
+		// and overwrite those entries, which is what happens next in two of the
+		// three variants.
+		li, A := r.leader()
+		if A == nil || r.stillCut(A.ID()) {
+			return
+		}
+		liveVoters := 0
+		for _, s := range r.cfgOf(A).Servers {
+			if s.Suffrage == raft.Voter && r.liveByID(string(s.ID)) != nil {
+				liveVoters++
+			}
+		}
+		if liveVoters < 3 {
+			return
+		}
+		k := r.P.MaxAppend
+		if k > 8 {
+			k = 1 + a.N%3 // the batch boundary cannot separate old from new entries; still a history worth running
+		}
+		idA := A.ID()
+		termA := A.R.CurrentTerm()
+		r.exec(Action{Op: "isolate", Srv: li})
+		r.doApply(A, k, 0)
+		w.Advance(2*time.Millisecond, r.sample)
+		w.Mu.Lock()
+		r.aeBudget, r.aeUsed = map[string]int{}, map[string]int{}
+		for _, id := range r.ids {
+			if id != idA {
+				r.aeBudget[id] = 0
+			}
+		}
+		r.lastFaultMs = w.Now()
+		w.Mu.Unlock()
+		cleanup := func() {
+			w.Mu.Lock()
+			r.aeBudget = nil
+			r.lastFaultMs = w.Now()
+			w.Mu.Unlock()
+			r.exec(Action{Op: "heal"})
+		}
+		var W *sim.Instance
+		wi := -1
+		for step := 0; step < 400 && W == nil; step++ {
+			w.Advance(5*time.Millisecond, r.sample)
+			for i := range r.ids {
+				if in := r.live(i); i != li && in != nil && in.R.State() == raft.Leader && in.R.CurrentTerm() > termA {
+					W, wi = in, i
+				}
+			}
+		}
+		if W == nil || r.live(li) != A {
+			cleanup()
+			return
+		}
+		if a.Arg%2 == 1 {
+			r.doApply(W, 1, 0)
+		}
+		w.Advance(2*time.Millisecond, r.sample)
+		termW := W.R.CurrentTerm()
+		idW := W.ID()
+		r.exec(Action{Op: "isolate", Srv: wi})
+		w.Mu.Lock()
+		for _, y := range r.ids {
+			if y != idW && y != idA {
+				delete(r.cut, [2]string{idA, y})
+				delete(r.cut, [2]string{y, idA})
+			}
+		}
+		extra := 0
+		if len(a.Set) > 0 {
+			extra = a.Set[0]
+		}
+		r.aeBudget, r.aeUsed = map[string]int{idA: 1 + extra}, map[string]int{} // per follower the first request is the batch of old entries
+		r.lastFaultMs = w.Now()
+		w.Mu.Unlock()
+		hbA := A.Conf.HeartbeatTimeout
+		if liveVoters > 3 {
+			// A must time out first: the others could elect one of themselves
+			rc := A.R.ReloadableConfig()
+			rc.HeartbeatTimeout, rc.ElectionTimeout = max(hbA/4, A.Conf.LeaderLeaseTimeout), max(hbA/4, A.Conf.LeaderLeaseTimeout)
+			_ = A.R.ReloadConfig(rc)
+		}
+		again := false
+		for step := 0; step < 600 && !again; step++ {
+			w.Advance(2*time.Millisecond, r.sample)
+			if r.live(li) != A {
+				break
+			}
+			again = A.R.State() == raft.Leader && A.R.CurrentTerm() > termW
+			if _, other := r.leader(); other != nil && other != A && other.R.CurrentTerm() > termW {
+				break
+			}
+		}
+		if liveVoters > 3 && r.live(li) == A {
+			rc := A.R.ReloadableConfig()
+			rc.HeartbeatTimeout, rc.ElectionTimeout = hbA, hbA
+			_ = A.R.ReloadConfig(rc)
+		}
+		if !again {
+			cleanup()
+			return
+		}
+		w.Advance(time.Duration(4+r.P.LatencyMs*2)*time.Millisecond, r.sample)
+		r.feat("figure8-leader-again-with-old-term-tail")
+		lastA := A.R.LastIndex()
+		for i := range r.ids {
+			if in := r.live(i); in != nil && i != li && i != wi && in.R.LastIndex()+1 == lastA && k == r.P.MaxAppend {
+				r.feat("figure8-old-term-entries-on-a-majority-without-the-new-terms-no-op")
+				break
+			}
+		}
+		w.Advance(time.Duration(a.Dt%7)*time.Millisecond, r.sample)
+		switch a.N % 3 {
+		case 0:
+			A.Crash()
+			r.reapDead()
+		case 1:
+			r.exec(Action{Op: "isolate", Srv: li})
+		case 2:
+			// the paper's other ending: the no-op gets through, W cannot win any more
+			w.Mu.Lock()
+			r.aeBudget = nil
+			w.Mu.Unlock()
+			w.Advance(10*time.Millisecond, r.sample)
+			r.exec(Action{Op: "isolate", Srv: li})
+		}
+		w.Mu.Lock()
+		r.aeBudget = nil
+		for _, y := range r.ids {
+			if y != idW && y != idA {
+				delete(r.cut, [2]string{idW, y})
+				delete(r.cut, [2]string{y, idW})
+			}
+		}
+		r.lastFaultMs = w.Now()
+		w.Mu.Unlock()
+		w.Advance(6*r.maxHB(), r.sample)
+		if _, L3 := r.leader(); L3 != nil && L3 != A {
+			r.doApply(L3, 2, 0)
+			if L3 == W {
+				r.feat("figure8-overwriting-leader-elected")
+			}
+		}
+		w.Advance(30*time.Millisecond, r.sample)
+		if a.N%3 == 0 {
+			r.restart(li)
+		}
+		r.exec(Action{Op: "heal"})
 	case "cfgrestart":
 		// a membership change, a few settled writes, every server restarts; the
 		// new leader snapshots; everything restarts again (what survives is the
